@@ -69,6 +69,19 @@ var c04Routes = []c04Route{
 	{"int-abc", "/internal/a/b/c/:id", "/internal/a/b/c/xyz", []string{"GET", "POST"}, "internal"},
 	{"int-xy", "/internal/a/:x/b/:y", "/internal/a/x1/b/y1", []string{"GET"}, "internal"},
 	{"int-did", "/internal/vdr/v1/did/:did", "/internal/vdr/v1/did/did:nuts:abc", []string{"GET"}, "internal"},
+	// registered WITHOUT a leading slash: same route on the wire
+	{"int-noslash", "internal/noslash", "/internal/noslash", []string{"GET"}, "internal"},
+	{"status-noslash", "status/noslash", "/status/noslash", []string{"GET"}, "status"},
+	// registered with a case variant of a bound first segment. MultiEcho.getBindFromPath lower-cases the first segment, so the
+	// engine binds these to the internal interface (O5 applies). The auth guard, like the router, is case-sensitive on the
+	// REQUEST path; whether such a handler is "registered under /internal" in the sense of the auth clause is not decided
+	// here (group *-cv: O1/O3/O4 do not apply; counted as an observation class).
+	{"cv-Internal", "/Internal/cv", "/Internal/cv", []string{"GET"}, "internal-cv"},
+	{"cv-INTERNAL-param", "/INTERNAL/cv/:id", "/INTERNAL/cv/abc", []string{"GET", "POST"}, "internal-cv"},
+	{"cv-Internal-noslash", "Internal/noslash", "/Internal/noslash", []string{"GET"}, "internal-cv"},
+	{"cv-Status", "/Status/cv", "/Status/cv", []string{"GET"}, "status-cv"},
+	{"cv-METRICS", "/METRICS", "/METRICS", []string{"GET"}, "metrics-cv"},
+	{"cv-Health", "/Health", "/Health", []string{"GET"}, "health-cv"},
 	{"status", "/status", "/status", []string{"GET"}, "status"},
 	{"status-diag", "/status/diagnostics", "/status/diagnostics", []string{"GET"}, "status"},
 	{"metrics", "/metrics", "/metrics", []string{"GET"}, "metrics"},
@@ -134,6 +147,7 @@ var c04State struct {
 	initErr  error
 	keys     map[string]*c04Key
 	akPath   string
+	akFile   []byte
 	fixes    map[string]*c04Fix
 
 	hitMu sync.Mutex
@@ -202,6 +216,7 @@ func c04Init() error {
 			return
 		}
 		c04State.keys = keys
+		c04State.akFile = file
 		c04State.fixes = map[string]*c04Fix{}
 	})
 	return c04State.initErr
@@ -265,6 +280,20 @@ func c04Marker() string {
 	return fmt.Sprintf("m%d-%d", os.Getpid(), c04State.seq)
 }
 
+// c04WaitUp waits until the listener on addr answers as OUR engine: a sentinel request must reach our recorder.
+func c04WaitUp(addr, path, route string) bool {
+	for i := 0; i < 400; i++ {
+		mk := c04Marker()
+		st, _, err := c04Exchange(addr, []byte("GET "+path+" HTTP/1.1\r\nX-Verif-Req: "+mk+"\r\nHost: "+addr+"\r\nConnection: close\r\n\r\n"))
+		hits := c04TakeHits(mk)
+		if err == nil && st == 200 && len(hits) == 1 && hits[0].Route == route {
+			return true
+		}
+		time.Sleep(5 * time.Millisecond)
+	}
+	return false
+}
+
 // c04Fixture returns the running engine of a listener configuration, starting it on first use.
 func c04Fixture(cfg string) (*c04Fix, error) {
 	if err := c04Init(); err != nil {
@@ -302,20 +331,7 @@ func c04Fixture(cfg string) (*c04Fix, error) {
 			return nil, fmt.Errorf("Start: %w", err)
 		}
 		f.eng = eng
-		// wait until both listeners answer as OUR engine (a sentinel request must reach our recorder)
-		up := func(addr, path, route string) bool {
-			for i := 0; i < 100; i++ {
-				mk := c04Marker()
-				st, _, err := c04Exchange(addr, []byte("GET "+path+" HTTP/1.1\r\nX-Verif-Req: "+mk+"\r\nHost: "+addr+"\r\nConnection: close\r\n\r\n"))
-				hits := c04TakeHits(mk)
-				if err == nil && st == 200 && len(hits) == 1 && hits[0].Route == route {
-					return true
-				}
-				time.Sleep(20 * time.Millisecond)
-			}
-			return false
-		}
-		if up(f.intAddr, "/health", "health") && up(f.pubAddr, "/", "pub-root") {
+		if c04WaitUp(f.intAddr, "/health", "health") && c04WaitUp(f.pubAddr, "/", "pub-root") {
 			c04State.fixes[cfg] = f
 			c04AuditEvents()
 			return f, nil
@@ -617,7 +633,8 @@ func c04GenCase(t *rapid.T) c04Case {
 	if focus == "listener" {
 		// a request for something bound to the internal interface, sent to the PUBLIC listener of a two-listener engine
 		c.Cfg, c.Lis = "split", "public"
-		route := c04RouteByName(c04Pick(t, "lroute", []string{"status", "status-diag", "metrics", "health", "int-probe", "int-any", "int-root", "int-wild"}))
+		route := c04RouteByName(c04Pick(t, "lroute", []string{"status", "status-diag", "metrics", "health", "int-probe", "int-any", "int-root", "int-wild", "int-noslash", "status-noslash",
+			"cv-Internal", "cv-INTERNAL-param", "cv-Internal-noslash", "cv-Status", "cv-METRICS", "cv-Health"}))
 		c.Note = append(c.Note, "route="+route.Name)
 		c.Method = route.Methods[0]
 		path := route.Concrete
@@ -641,7 +658,8 @@ func c04GenCase(t *rapid.T) c04Case {
 
 	// base route
 	rname := c04Weighted(t, "route", "int-probe", 6, "int-param", 3, "int-deep", 3, "int-wild", 2, "int-any", 4, "int-root", 2,
-		"int-p", 2, "int-abc", 2, "int-xy", 2, "int-did", 2,
+		"int-p", 2, "int-abc", 2, "int-xy", 2, "int-did", 2, "int-noslash", 1, "status-noslash", 1,
+		"cv-Internal", 1, "cv-INTERNAL-param", 1, "cv-Internal-noslash", 1, "cv-Status", 1, "cv-METRICS", 1, "cv-Health", 1,
 		"status", 1, "status-diag", 1, "metrics", 1, "health", 1,
 		"pub-root", 1, "pub-iam", 1, "pub-oauth", 1, "pub-wk", 1, "pub-n2n", 1, "pub-wild", 1, "pub-statuslist", 1, "(none-internal)", 1, "(none)", 1)
 	path := ""
@@ -934,6 +952,9 @@ func c04Run(x *h.Ctx, c c04Case) {
 				}
 			}
 		}
+		if hh.Group == "internal-cv" && !acceptable {
+			x.Class("observation:case-variant-/Internal-route-ran-without-token(on internal listener; not judged)")
+		}
 		if c.Cfg == "split" && hh.Group != "public" && (c.Lis == "public" || hh.Local == fx.pubAddr) {
 			x.Violate("internal-route-on-public-listener:"+hh.Group, "handler %s (%s group) was served by the public listener %s: %s", hh.Route, hh.Group, fx.pubAddr, describe())
 		}
@@ -941,7 +962,7 @@ func c04Run(x *h.Ctx, c c04Case) {
 	// O6
 	if granted > 0 {
 		x.Class("audit=AccessGranted")
-		if !acceptable {
+		if !acceptable && len(x.Violations()) == 0 { // (when a handler ran as well, O1 has reported it already)
 			x.Violate("access-granted-without-token:"+form, "an AccessGranted audit event was written for a request without an acceptable token: %s", describe())
 		}
 	}
